@@ -126,7 +126,7 @@ def main(tier, only=None):
     global RESIZE2FS, E2FSCK, IOTRACE, TREES
     ck = Check('C08', tier, 'model_checking')
     RESIZE2FS = tool('resize2fs'); E2FSCK = tool('e2fsck'); fsweep.init_scratch()
-    IOTRACE = os.path.join(VERIF, 'build/bin/iotrace.so')
+    IOTRACE = os.path.join(BUILD, 'bin/iotrace.so')
     import subprocess
     subprocess.check_call(['gcc', '-O2', '-shared', '-fPIC', '-o', IOTRACE, os.path.join(VERIF, 'engines/iotrace.c'), '-ldl'])
     quick = tier == 'quick'
